@@ -1,5 +1,5 @@
 use quote::{quote, ToTokens};
-use syn::{spanned::Spanned, Expr, Lit, Meta, Type};
+use syn::{spanned::Spanned, Expr, ExprUnary, Lit, Meta, Type, UnOp};
 
 use super::path::path_to_string;
 
@@ -107,6 +107,34 @@ pub(crate) fn auto_adjust_expr(expr: Expr, ty: Option<&Type>) -> Expr {
             }
 
             syn::parse2(quote!(::core::convert::Into::into(#expr))).unwrap()
+        },
+        // `-1` is only parsed as one literal when nothing follows it (`Default = -1`); in `expression(-1)` or
+        // `Default = -1, ..` it is a negation of the literal `1` and needs the same treatment
+        Expr::Unary(ExprUnary {
+            op: UnOp::Neg(_),
+            expr: operand,
+            ..
+        }) => {
+            if let Expr::Lit(lit) = operand.as_ref() {
+                let (suffix, types): (&str, &[&str]) = match &lit.lit {
+                    Lit::Int(lit) => (lit.suffix(), &INT_TYPES),
+                    Lit::Float(lit) => (lit.suffix(), &FLOAT_TYPES),
+                    _ => return expr,
+                };
+
+                if let Some(Type::Path(ty)) = ty {
+                    let ty_string = ty.into_token_stream().to_string();
+
+                    if suffix == ty_string || types.contains(&ty_string.as_str()) {
+                        // don't call into
+                        return expr;
+                    }
+                }
+
+                syn::parse2(quote!(::core::convert::Into::into(#expr))).unwrap()
+            } else {
+                expr
+            }
         },
         _ => expr,
     }
